@@ -25,9 +25,24 @@ def probe(ctx):
     return {"item_size": 56, "start": START_DEFAULT}
 
 
+def _wrap_store(tok):
+    out = []
+    for e in tok[6:].split(","):
+        f = e.split(":")
+        if len(f) == 4 and f[3].lstrip("-").isdigit():
+            v = int(f[3])
+            f[3] = str(((v + (1 << 63)) % (1 << 64)) - (1 << 63))
+        out.append(":".join(f))
+    return "store=" + ",".join(out)
+
+
 def canon(case, i, line):
     """sort callback tokens (Go map order decides their order inside one step); drop ring-buffer counters"""
     fs = line.split()
+    if line.startswith("store="):
+        # the harness prints an entry's expiration with Time.UnixNano(), which wraps beyond the year 2262 (TTLs of
+        # "forever"); the model prints the exact instant: compare modulo 2^64
+        fs = [_wrap_store(f) if f.startswith("store=") else f for f in fs]
     head = [f for f in fs if not CB.match(f) and not f.startswith("gk:") and not f.startswith("gd:")]
     tail = sorted(f for f in fs if CB.match(f))
     return " ".join(head + tail)
@@ -136,6 +151,9 @@ class Gen:
                 ttl = 0
                 if rng.random() < ttl_p:
                     ttl = rng.choice([1, 10 ** 9, 3 * 10 ** 9, 7 * 10 ** 9 + 5, 60 * 10 ** 9, -5])
+                    if rng.random() < 0.06:
+                        # "forever": expirations beyond what UnixNano can represent (year 2262)
+                        ttl = rng.choice([(1 << 63) - 1, 9 * 10 ** 18, 1 << 62])
                 cost = rng.randrange(lo, hi + 1)
                 if ignore and rng.random() < 0.07:
                     cost = 0          # an effective cost of exactly 0 (no internal cost, Config.Cost returns 0)
